@@ -1,12 +1,14 @@
 """C15 — changesets (a) and modification-flag back-fill (c); the object-path flags (b) live in pC15b."""
 import json
 
+import corebase as B
 import env as E
+import hist
 import tables as T
 from framework import gbool, glist, gpair, gZ, gopt, gnat
 
 PROP = 'C15'
-CHECK_MODS = ['Model.VTable', 'Model.Backfill', 'Model.Changeset', 'Checks.C15chk']
+CHECK_MODS = ['Model.VTable', 'Model.Backfill', 'Model.Changeset', 'Model.Core', 'Checks.Corechk', 'Checks.CoreProps', 'Checks.C15chk']
 CASE_TYPE = 'C15_case'
 CORR, PROPCHK, PRE = 'C15_corr', 'C15_prop', 'C15_pre'
 THEOREMS = ['C15a_changeset_subquery', 'C15a_changeset_validity', 'C15a_changeset_entries',
@@ -14,7 +16,9 @@ THEOREMS = ['C15a_changeset_subquery', 'C15a_changeset_validity', 'C15a_changese
 RULE = ('(cs) random version tables (both strategies, flat/composite keys, tracker plugin on/off, values from '
         '{NULL,0,1,2} with sticky neighbours) loaded with Core INSERTs; version.changeset read for every row. '
         '(bf) chained tables with flags initially false or random handed to schema.update_property_mod_flags, table read '
-        'back. Non-trivial: some entity with >= 2 versions where a column moves to or from NULL, and >= 2 entities. '
+        'back. (H) histories with the tracker plugin on the real code (several flushes per transaction, inserts and deletes in '
+        'later flushes): the flags of every version row written are compared with the model and with the column-wise '
+        'difference to the predecessor (all on INSERT / DELETE). Non-trivial: some entity with >= 2 versions where a column moves to or from NULL, and >= 2 entities. '
         'Distinct: hash of the canonical input.')
 ASSUMPTIONS = ['Python `!=` on ints/None is modelled by val_eqb', 'the flag back-fill is claimed for tables carrying the validity chain']
 
@@ -25,6 +29,11 @@ def budget(tier):
 
 def gen_cases(rng, n, tier):
     out = []
+    # (b) histories on the real code with the tracker plugin: several flushes per transaction, inserts and deletes in
+    # later flushes, delete + re-insert, columns moving to and from NULL
+    cfgs = [c for c in B.all_cfgs('blog') + B.all_cfgs('comp')[::2] + B.all_cfgs('inh')[::2] if c['tracker'] and not c['null_delete']]
+    for c in B.gen_cases_default(rng, max(40, n // 6), tier, cfgs=[dict(c, twin=False) for c in cfgs]):
+        out.append(dict(kind='H', cfg=c['cfg'], prog=c['prog']))
     for i in range(n):
         if i % 3 == 2:
             cfg = dict(strategy='validity', keyshape=rng.choice(['int', 'composite']),
@@ -50,7 +59,13 @@ def corpus():
     rows = [dict(key=[1], tx=1, end=3, op=0, dat=[7, None], mod=[False, False]),
             dict(key=[2], tx=2, end=None, op=0, dat=[8, None], mod=[False, False]),
             dict(key=[1], tx=3, end=None, op=1, dat=[None, None], mod=[False, False])]
-    return [dict(kind='bf', cfg=cfg, rows=rows), dict(kind='cs', cfg=cfg, rows=rows)]
+    h = dict(shape='blog', strategy='validity', changes=False, tracker=True, null_delete=False, autoflush=False, twin=False)
+    # an insert and a delete in LATER flushes of a transaction that already versioned something
+    return [dict(kind='bf', cfg=cfg, rows=rows), dict(kind='cs', cfg=cfg, rows=rows),
+            dict(kind='H', cfg=h, prog=[['add', 0, 1, {'a': 1, 'b': 1}], ['add', 0, 2, {'a': 1}], ['commit'],
+                                        ['set', 0, 1, {'a': 2}], ['flush'], ['add', 0, 3, {'a': 5}], ['flush'], ['del', 0, 2], ['flush'],
+                                        ['set', 0, 1, {'b': None}], ['commit'],
+                                        ['set', 0, 3, {'a': 6}], ['flush'], ['del', 0, 3], ['flush'], ['add', 0, 3, {'b': 1}], ['commit']])]
 
 
 def _observe(env, case):
@@ -99,11 +114,17 @@ def _worker(chunk):
 
 
 def run_impl(cases):
+    res = [None] * len(cases)
+    hidx = [i for i, c in enumerate(cases) if c['kind'] == 'H']
+    if hidx:
+        for i, o in zip(hidx, hist.run_impl([cases[i] for i in hidx])):
+            res[i] = o
     groups = {}
     for i, c in enumerate(cases):
+        if c['kind'] == 'H':
+            continue
         groups.setdefault(json.dumps(c['cfg'], sort_keys=True), []).append((i, c))
     chunks = [(json.loads(k), items) for k, items in groups.items()]
-    res = [None] * len(cases)
     for part in E.pmap(_worker, chunks):
         for idx, o in part:
             res[idx] = o
@@ -111,6 +132,8 @@ def run_impl(cases):
 
 
 def encode(case, obs):
+    if case['kind'] == 'H':
+        return '(C15_H %s)' % hist.encode_case(case, obs)
     if case['kind'] == 'cs':
         o = glist(obs['cs'], lambda x: '(%s, %s, %s)' % (
             glist(x['key']), gZ(x['tx']),
@@ -121,6 +144,17 @@ def encode(case, obs):
 
 
 def nontrivial(case, obs):
+    if case['kind'] == 'H':
+        # a transaction with >= 2 flushes in which a later flush inserts or deletes
+        flushes, later = 0, False
+        for ev in obs.get('trace', []) or []:
+            if ev['ev'] in ('commit', 'rollback'):
+                flushes = 0
+            elif ev['ev'] == 'flush' and ev['ents']:
+                flushes += 1
+                if flushes >= 2 and any(e['kind'] in (0, 2) for e in ev['ents']):
+                    later = True
+        return later
     by = {}
     for r in sorted(case['rows'], key=lambda r: r['tx']):
         by.setdefault(tuple(r['key']), []).append(r['dat'])
@@ -139,6 +173,8 @@ def features(case, obs):
 
 
 def shrink(case):
+    if case['kind'] == 'H':
+        return [dict(kind='H', cfg=c['cfg'], prog=c['prog']) for c in B.shrink(dict(cfg=case['cfg'], prog=case['prog']))]
     out = []
     for rows in T.shrink_rows(case['rows']):
         if case['cfg']['strategy'] == 'validity':
@@ -148,4 +184,6 @@ def shrink(case):
 
 
 def describe(case, obs):
+    if case['kind'] == 'H':
+        return B.describe_short(case, obs)
     return dict(kind=case['kind'], cfg=case['cfg'], version_table_rows=case['rows'], observed=obs)
